@@ -346,9 +346,9 @@ def ann_id(v):
     return _ANN.setdefault(key, 1000 + len(_ANN))
 
 
-CONFIGS_QUICK = [(1, 1, 1), (3, 1, 1), (4, 1, 2), (5, 3, 4), (6, 1, 1), (7, 1, 2), (12, 1, 4), (40, 1, 1)]
+CONFIGS_QUICK = [(1, 1, 1), (2, 1, 4), (3, 1, 1), (4, 1, 2), (5, 3, 4), (6, 1, 1), (7, 1, 2), (12, 1, 4), (40, 1, 1)]
 CONFIGS_THOROUGH = [(w, fn, fd) for w in (1, 2, 3, 4, 5, 6, 7, 8, 10, 12, 40)
-                    for (fn, fd) in ((1, 1), (3, 4), (1, 2), (1, 4))]
+                    for (fn, fd) in ((1, 1), (3, 4), (1, 2), (1, 4), (1, 8))]
 
 
 def layout_case(cid, t, doc, W, fn, fd, smart, model=True, **flags):
